@@ -17,6 +17,7 @@ from checks import common as cm
 from checks import c01, c03, c06_split
 
 ID = 'C06'
+HASHSEED_EVERY = {'quick': 300, 'thorough': 2000}     # one case in so many is also run under other string-hash seeds (harness._run_hashseed_invariant)
 BUDGET = {'quick': 6000, 'thorough': 500000}
 WALL = {'quick': 100, 'thorough': 1500}
 CHUNK = 40
